@@ -26,6 +26,12 @@ def generate(seed, tier, enlarged=False):
         {'kind': 'sched', 'procs': [{'ts': ['script', [1.25, 0.5]], 'cond': ['true']}],
          'calls': [[1.0, 'run'], [1.0, 'run']], 'emit_step': 1, 't0': 0},
         {'kind': 'sched', 'procs': [], 'calls': [[2.0, 'run'], [1.0, 'update']], 'emit_step': 1, 't0': 0},
+        # corpus (decimal grid): single jumps g -> f with f > 2g, where g + (f - g) is not f in binary floating point
+        {'kind': 'sched', 'procs': [{'ts': ['state', [0.2, 0.7]], 'cond': ['true']}], 'calls': [[1.2, 'run'], [0.4, 'update']],
+         'emit_step': 1, 't0': 0, 'precision': 1},
+        {'kind': 'sched', 'procs': [{'ts': ['state', [0.3, 0.6, 0.9]], 'cond': ['true']},
+                                    {'ts': ['const', 1.8], 'cond': ['true']}], 'calls': [[1.8, 'update']],
+         'emit_step': 1, 't0': 0, 'precision': 1},
     ]
     for i in range(n):
         scripted = i % 2 == 0
